@@ -126,7 +126,16 @@ def build(cube, fixed=None, engine=None):
             if cube.get('match_from_one', True):
                 c.domain.append(S.Not(S.Eq(q, S.bv(0, 64))))
             p['q'] = q
-            p['rec'] = h.match(q, cut_after=cube.get('cut_after'))
+            taker = None
+            if cube.get('taker_may_rest'):
+                # the taker's id may be the id of an order resting on the level (the statement puts no restriction on it)
+                nids = max(len(c.slots), (c.pre or {}).get('N', 0) if c.pre else 0, 1)
+                t = S.bv(TAKER_ID, 128)
+                for j in range(nids, 0, -1):
+                    t = S.Ite(inp.var('taker%d.is%d' % (k, j), S.B), S.bv(j, 128), t)
+                taker = EnumV(S.bv(0, 64), {0: (t,)})
+                p['taker'] = taker
+            p['rec'] = h.match(q, taker=taker, cut_after=cube.get('cut_after'))
         else:
             kind = UPD[op]
             tgt = target_id(inp, 'tgt%d' % k, max(1, len(c.slots)))
@@ -400,13 +409,15 @@ def script_and_prediction(c, model, upto=None):
             continue
         if upto is not None and k >= upto:
             if p['op'] == 'M':
-                ops.append({'op': 'match', 'quantity': conc(p['q'], model), 'taker': uuid_str(TAKER_ID)})
+                ops.append({'op': 'match', 'quantity': conc(p['q'], model),
+                            'taker': order_id_str(conc(p['taker'], model)) if p.get('taker') is not None else uuid_str(TAKER_ID)})
             break
         if p['op'] in 'AR':
             ops.append({'op': 'add', 'order': order_json(L, conc(p['order'], model))})
             e = {'kind': 'add'}
         elif p['op'] == 'M':
-            ops.append({'op': 'match', 'quantity': conc(p['q'], model), 'taker': uuid_str(TAKER_ID)})
+            ops.append({'op': 'match', 'quantity': conc(p['q'], model),
+                        'taker': order_id_str(conc(p['taker'], model)) if p.get('taker') is not None else uuid_str(TAKER_ID)})
             mr = conc(rec['ret'], model)
             # MatchResult fields: order_id, transactions(TransactionList(Vec)), remaining, is_complete, filled
             txs = []
